@@ -10,7 +10,7 @@ from ..runner import drive
 
 RULE = ("(a) coefficients: stock cases re-built from their rows with every device base (Sn, Vn, Vn1, Vdcn), every bus "
         "kV and the system MVA multiplied by drawn factors; after setup every parameter flagged power/ipower/voltage/"
-        "current/z/y/dc_*/r/g must satisfy v == vin*k with k from the textbook ratio (coverage table of flags reached). "
+        "current/z/y/dc_*/r/g must satisfy v == vin*k with k from the textbook ratio (coverage table of flags reached), and the value an export writes for it (as_dict(vin=True), list-valued parameters included) is the supplied input value. "
         "(b) histories: a drawn sequence of Model.alter / Group.alter (attr v and vin) / Model.set / reset / PFlow.run / "
         "TDS.init / dump(json|xlsx)->reload on one system, checked after every step against the machine's own (vin, v) "
         "table: v == vin*k, the array the equations read holds the new value, dae.Tf and the integrator mass matrix follow "
@@ -178,6 +178,14 @@ def camp_coef(ctx):
     def body(case):
         ctx.evaluated()
         coefficient_case(ctx, case)
+    if ctx.shard == 0:
+        # anchor: list-valued admittance parameters (switched-shunt blocks) on a device base different from the system base
+        for rel in ('ieee14/ieee14_shuntsw.json', 'ieee14/ieee14_shuntsw.xlsx'):
+            if rel in paths:
+                case = dict(path=rel, factors=[1.0, 0.5, 2.0], mva=100.0)
+                ctx.current_case = case
+                ctx.count('coef:anchor_list_valued_parameters')
+                body(case)
     drive(ctx, coefficient_cases(paths), body, 8 if quick else 100, name='coef', shrink=False,
           budget_s=120 if quick else 1200)
 
